@@ -4,61 +4,11 @@ C13 — tagged unions dispatch on the tag alone (default engine).
 import DW.Generated.Tables
 import DW.Model.Load
 import DW.Model.LoadV1
+import DW.Lemmas.Tagged
+import DW.Lemmas.RoundTrip
 
 namespace DW.Props.C13
-open DW
-
-def isCls : Ty → Bool
-  | .cls _ _ => true
-  | _ => false
-
-/-- no non-dataclass member of the Union claims a dict value (`o in parser` is False for it) -/
-def NoDictClaim (ts : List Ty) (o : JVal) : Prop :=
-  ∀ t ∈ ts, isCls t = true ∨ t = .none ∨ parserContains t o = some false
-
-theorem loadUnionTry_none (std : Std) (cfg : Option MetaCfg) (ts : List Ty) (o : JVal)
-    (h : NoDictClaim ts o) : loadUnionTry std cfg ts o = none := by
-  induction ts with
-  | nil => rfl
-  | cons t r ih =>
-    have hr : NoDictClaim r o := fun t' ht' => h t' (by simp [ht'])
-    have ht := h t (by simp)
-    cases t <;> simp [loadUnionTry, isCls] at ht ⊢ <;> first
-      | exact ih hr
-      | (simp [ht]; exact ih hr)
-
-/-- the tag a member class answers to -/
-def tagOf (cfg : Option MetaCfg) : Ty → Option S
-  | .cls ci _ => memberTag cfg ci
-  | _ => none
-
-/-- Dispatch depends on the tag alone: if exactly one member class answers to tag `tg` — wherever it stands in
-the Union, whatever the other members' fields look like — then the value is built by *that* class's loader. -/
-theorem loadTagged_dispatch (std : Std) (cfg : Option MetaCfg) (tg : S) (pre post : List Ty)
-    (ci : ClassInfo) (ftys : List (S × Ty)) (o : JVal)
-    (hk : memberTag cfg ci = some tg)
-    (hpre : ∀ t ∈ pre, tagOf cfg t ≠ some tg) (hpost : ∀ t ∈ post, tagOf cfg t ≠ some tg) :
-    loadTagged std cfg tg (pre ++ .cls ci ftys :: post) o
-      = loadClassWith (fun f v => loadField std cfg f v ftys) (effMeta ci.cmeta cfg) ci o := by
-  induction pre with
-  | nil =>
-    simp only [List.nil_append, loadTagged]
-    have : (post.any (tyHasTag cfg tg)) = false := by
-      rw [List.any_eq_false]
-      intro t' ht'
-      have := hpost t' ht'
-      cases t' <;> simp [tagOf, tyHasTag] at this ⊢
-      exact this
-    rw [this]
-    simp [hk]
-  | cons t r ih =>
-    have hr : ∀ t ∈ r, tagOf cfg t ≠ some tg := fun t' ht' => hpre t' (by simp [ht'])
-    have ht := hpre t (by simp)
-    cases t <;> simp only [List.cons_append, loadTagged] <;> try exact ih hr
-    case cls ci' ftys' =>
-      simp [tagOf] at ht
-      simp [ht]
-      exact ih hr
+open DW DW.Tagged
 
 /-- C13 dispatch, end to end at a Union annotation: a dict whose tag key holds K's tag is loaded as K, for every
 position of K among the Union arguments. -/
@@ -70,13 +20,8 @@ theorem C13_dispatch (std : Std) (cfg : Option MetaCfg) (tg : S) (pre post : Lis
     (htag : kvs.find? (fun kv => kv.1 == (cfg.bind (·.tagKey)).getD Generated.tagKey.toList)
               = some ((cfg.bind (·.tagKey)).getD Generated.tagKey.toList, .str tg)) :
     loadD std cfg (.union (pre ++ .cls ci ftys :: post)) (.dict kvs)
-      = loadClassWith (fun f v => loadField std cfg f v ftys) (effMeta ci.cmeta cfg) ci (.dict kvs) := by
-  simp only [loadD, JVal.kind]
-  have hk' : (JKind.dict == JKind.null) = false := by decide
-  simp only [hk', Bool.false_and, Bool.false_eq_true, ↓reduceIte]
-  rw [loadUnionTry_none std cfg _ _ hclaim]
-  simp only [htag]
-  exact loadTagged_dispatch std cfg tg pre post ci ftys (.dict kvs) hk hpre hpost
+      = loadClassWith (fun f v => loadField std cfg f v ftys) (effMeta ci.cmeta cfg) ci (.dict kvs) :=
+  C13_dispatch_core std cfg tg pre post ci ftys kvs hk hpre hpost hclaim htag
 
 /-- an unassigned tag is rejected with ParseError -/
 theorem loadTagged_unassigned (std : Std) (cfg : Option MetaCfg) (tg : S) (ts : List Ty) (o : JVal)
@@ -129,6 +74,20 @@ theorem C13_dump_tag (eff : MetaCfg) (t : S) (body : List (DVal × DVal)) (ht : 
 
 /-- the default tag key is the documented `__tag__` -/
 theorem C13_default_tag_key : Generated.tagKey = "__tag__" := by decide
+
+/-- **dump then load through the Union** (default engine): for a member class K of the round-trip fragment carrying tag
+`tg` (`RT.ClsOK … (some tg)`: the tag key is that of the travelling config and no key of K), every other Union member a
+dataclass answering to another tag or `None`, and field values that conform: what `asdict` writes for an instance of K —
+K's fields and K's tag under the tag key — is loaded back by the Union annotation to exactly that instance of K,
+whatever the position of K among the members and however similar the members' fields are. -/
+theorem C13_roundtrip_tagged (std : Std) (laws : StdLaws std) (cfg : Option MetaCfg) (pre post : List Ty) (ci : ClassInfo)
+    (ftys : List (S × Ty)) (vals : List PyVal) (tg : S) (hp : RT.ClsOK cfg ci ftys (some tg)) (hlen : vals.length = ftys.length)
+    (hvals : ∀ p ∈ ftys.zip vals, RT.Conf std cfg p.1.2 p.2)
+    (hpre : ∀ t ∈ pre, RT.OtherMember cfg tg t) (hpost : ∀ t ∈ post, RT.OtherMember cfg tg t)
+    (d : DVal) (h : dumpV std false cfg (.inst ci ((ftys.map (·.1)).zip vals)) = .ok d) :
+    loadD std cfg (.union (pre ++ .cls ci ftys :: post)) (RT.toJ d) = .ok (.inst ci ((ftys.map (·.1)).zip vals)) :=
+  RT.rt_unionTagged std cfg pre post ci ftys vals tg hp hlen
+    (fun p hp' => RT.roundtrip std cfg laws p.1.2 p.2 (hvals p hp')) hpre hpost d h
 
 /-! ### v1 engine
 
